@@ -131,6 +131,14 @@ def sched_cells(tier: str) -> dict[str, Callable[[], tuple[Spec, dict, Optional[
         if tier != "quick":
             add(f"S2x3[bands={a}{b}{c}]", lambda: S2(3), 60, 2 * H, pre)
     add("S2x2+1", lambda: S2(2, extra_indep=1), 60, int(1.5 * H))
+
+    def with_milestone(gap=None):
+        s = S2(2)
+        s.tasks.append(Task("ms", deps=[Dep("t1", gap=gap)]))
+        s.tasks.append(Task("after", effort=P("e2"), alloc=["r"], deps=[Dep("ms")]))
+        return s
+    add("S2x2+milestone", with_milestone, 60, int(1.5 * H))
+    add("S2x2+milestone[gap=29min]", lambda: with_milestone("29min"), 60, int(1.5 * H))
     add("S3team", lambda: S3(), 60, 2 * H)
     add("S4alt", lambda: S4(), 60, 3 * H)
     add("S5containers", lambda: S5(), 60, 2 * H)
